@@ -1,4 +1,6 @@
 import ZarrsModel.Model.Codec
+import ZarrsModel.Model.PackBits
+import ZarrsModel.Model.Lossy
 import ZarrsModel.Driver.C01
 /- driver handler for C03: predicted encoding of modelled chains, round trip and declared size always required -/
 namespace Zarrs.DriverC03
@@ -28,6 +30,10 @@ def stepCodec (_es : Nat) (acc : Acc) (tok : String) : Option Acc :=
   | ["bytes", e, u] => do
     let unit ← u.toNat?
     pure { acc with bytes := some (bytesEnc (e == "big") unit acc.elems.flatten) }
+  | ["packbits", w, f, l, pad, sg] => do
+    let c : PackBits.Cfg := ⟨← w.toNat?, ← f.toNat?, ← l.toNat?,
+      (if pad == "first" then .firstByte else if pad == "last" then .lastByte else .none), sg == "1"⟩
+    pure { acc with bytes := some (PackBits.encode c acc.elems.flatten) }
   | ["crc32c"] => acc.bytes.map (fun b => { acc with bytes := some (crc32cEnc b) })
   | ["fletcher32"] => acc.bytes.map (fun b => { acc with bytes := some (fletcher32Enc b) })
   | ["shuffle", n] => do
@@ -53,6 +59,52 @@ def field (toks : List String) (k : String) : String :=
   | some t => (t.drop (k.length + 1)).toString
   | none => ""
 
+def leNat (b : List Nat) : Nat := b.foldr (fun x acc => x + 256 * acc) 0
+def natLE : Nat → Nat → List Nat
+  | 0, _ => []
+  | k + 1, v => v % 256 :: natLE k (v / 256)
+
+/-- a number as a signed rational (negative?, numerator, denominator) from its little-endian bytes -/
+def ratOf (dtype : String) (b : List Nat) : Option (Bool × Nat × Nat) :=
+  let v := leNat b
+  let w := 8 * b.length
+  if dtype.startsWith "float" || dtype == "bfloat16" then
+    let f : Float.Fmt := if dtype == "float32" then Float.f32 else if dtype == "float64" then Float.f64 else if dtype == "float16" then Float.f16 else Float.bf16
+    if f.isFinite v then let (n, d) := f.value (f.mag v); some (f.neg v, n, d) else none
+  else if dtype.startsWith "int" then (if v ≥ 2 ^ (w - 1) then some (true, 2 ^ w - v, 1) else some (false, v, 1))
+  else some (false, v, 1)
+
+/-- |a - b| ≤ tn/td, on signed rationals -/
+def within (a b : Bool × Nat × Nat) (tn td : Nat) : Bool :=
+  let (sa, na, da) := a; let (sb, nb, db) := b
+  -- difference numerator over da*db
+  let x := na * db; let y := nb * da
+  let diff := if sa == sb then (if x ≥ y then x - y else y - x) else x + y
+  diff * td ≤ tn * da * db
+
+/-- judge the decoded elements of a lossy codec -/
+def judgeLossy (spec dtype : String) (data dec : List (List Nat)) : Bool :=
+  match spec.splitOn ":" with
+  | ["bitround", keep, mant] =>
+    (match keep.toNat?, mant.toNat? with
+     | some k, some m => data.length == dec.length && (data.zip dec).all (fun (x, y) =>
+         natLE x.length (Lossy.bitround (8 * x.length) m k (leNat x)) == y)
+     | _, _ => false)
+  | ["fso", _off, scale, _kind] =>
+    (match scale.toNat? with
+     | some sc => data.length == dec.length && (data.zip dec).all (fun (x, y) =>
+         match ratOf dtype x, ratOf dtype y with
+         | some a, some b =>
+           -- 0.5/scale, plus the rounding of the float arithmetic itself (relative 2^-20 for float32 types)
+           let (_, na, da) := a
+           let slackN := if dtype == "float32" then na else 0
+           let slackD := if dtype == "float32" then da * 1048576 else 1
+           -- tolerance = 1/(2*sc) + slackN/slackD
+           within a b (slackD + 2 * sc * slackN) (2 * sc * slackD)
+         | _, _ => x == y)
+     | none => false)
+  | _ => false
+
 def handle (l : Line) : Option (List String) := do
   let shape ← l.nl "shape"
   let model := (← l.get "model").splitOn "|"
@@ -62,6 +114,12 @@ def handle (l : Line) : Option (List String) := do
   if otoks.head? != some "val" then pure ["val rt=true sizeok=true (encode and decode must succeed)"] else
   let a2a := a2aOnly shape model
   let a2aStr := if a2a.isEmpty then "-" else ";".intercalate a2a
+  if let some spec := l.get "lossy" then
+    -- lossy codec: encode/decode succeed, the declared size holds, the decoded value is the prescribed one
+    let data ← DriverC01.parseElems (← l.get "data")
+    let dec ← DriverC01.parseElems (field otoks "dec")
+    let ok := field otoks "sizeok" == "true" && judgeLossy spec ((l.get "dtype").getD "") data dec
+    return [if ok then l.outcome else "val sizeok=true dec=<the value the codec's definition prescribes>"]
   if modelled then
     let elems ← DriverC01.parseElems (← l.get "data")
     let acc ← model.foldl (fun (a : Option Acc) tok => a.bind (fun a => stepCodec es a tok)) (some { elems := elems, shape := shape })
